@@ -372,8 +372,33 @@ fn gen_full_sentences(ctx: &Ctx, rep: &mut Report, r: &mut Rng) {
     }
 }
 
+/// generator 7: long in-order groups (fragment numbers up to 255), one-character payloads so
+/// that they also fit the no-allocator buffer, followed by lines numbered past the end
+fn gen_long_groups(ctx: &Ctx, rep: &mut Report, r: &mut Rng) {
+    let sizes: [u8; 8] = [9, 10, 64, 65, 127, 128, 254, 255];
+    for (i, &n) in sizes.iter().enumerate() {
+        if !ctx.mine(i as u64) {
+            continue;
+        }
+        for id in [None, Some(0u8), Some(255)] {
+            for decode in [false, true] {
+                let mut h = Hist::new();
+                for k in 1..=n {
+                    let pl = [*r.pick(crate::armor::ALPHABET)];
+                    h.feed(rep, "long-group", nmea_ref::mk(n, k, id, &pl, 0), decode);
+                }
+                for k in [n, n.wrapping_add(1), 255, 0, 1] {
+                    h.feed(rep, "long-group-tail", nmea_ref::mk(n, k, id, b"1", 0), decode);
+                    h.feed(rep, "long-group-tail", nmea_ref::mk(255, k, id, b"1", 0), decode);
+                }
+            }
+        }
+    }
+}
+
 pub fn run(ctx: &Ctx, rep: &mut Report) {
     let mut r = ctx.rng("c01");
+    gen_long_groups(ctx, rep, &mut r);
     gen_header_product(ctx, rep);
     gen_grammar(ctx, rep, &mut r);
     gen_corpus_mutation(ctx, rep, &mut r);
